@@ -694,6 +694,36 @@ pub fn run_c19(run: &Run) {
     }
     run.sample(json!({"type": "stream", "program": prog_json(&progs[0]), "polls": [[1, 3], [2, 18446744073709551615u64]], "threaded": false}));
     run.sample(json!({"type": "chain", "program": prog_json(&progs[0]), "events": [[0, 0], [1, 2], [0, 0], [2, 3], [0, 0]]}));
+    // once more with a logger that accepts TRACE records: all placements of <= 1 poll
+    crate::report::trace_logging(true);
+    let res = run.par_family(
+        &format!("{} producer programs x all placements of <= 1 poll x all handles with trace logging switched on", progs.len()),
+        progs.len() as u64,
+        || 0u64,
+        |st, k| {
+            let p = &progs[k as usize];
+            let reference = &refs[k as usize];
+            let n = reference.len() - 2;
+            for np in 0..=1 {
+                for s in schedules(n, np) {
+                    *st += 1;
+                    match guard(|| run_schedule(p, &s, false, reference)) {
+                        Err(m) => run.violation("trace-logging:stream:panic", m, json!({"type": "stream", "program": prog_json(p), "polls": s, "threaded": false, "trace_logging": true})),
+                        Ok((_, found)) => {
+                            for (kind, msg) in found {
+                                run.violation(&format!("trace-logging:{}", kind), format!("{} with polls {:?} on program {} (a logger accepting TRACE records is installed)", msg, s, prog_json(p)), json!({"type": "stream", "program": prog_json(p), "polls": s, "threaded": false, "trace_logging": true}));
+                            }
+                        }
+                    }
+                }
+            }
+        },
+        &|k| json!({"type": "stream", "program": prog_json(&progs[k as usize]), "polls": [], "threaded": false, "trace_logging": true}),
+    );
+    for st in res {
+        run.add_counts(0, st, st, 0);
+    }
+    crate::report::trace_logging(false);
     run.extra("states_are", json!("producer programs"));
     run.extra("transitions_are", json!("receiver polls executed and judged"));
     let _ = Var(0);
